@@ -366,8 +366,11 @@ def check_uris(ctx, n):
     for p in paths:
         u = path_to_uri(p)
         uris.append(u)
-        exprs.append("str_eqb (path_to_uri %s) %s && str_eqb (unquote_bytes (uri_quote %s)) %s" % (
-            cstr(p), cbytes(u.encode("utf-8")), cstr(p), cbytes(p.encode("utf-8"))))
+        back = path_from_uri(u)
+        exprs.append("str_eqb (path_to_uri %s) %s && str_eqb (unquote_bytes (uri_quote %s)) %s"
+                     " && (match path_from_uri %s with Some b => str_eqb b %s | None => false end)" % (
+            cstr(p), cbytes(u.encode("utf-8")), cstr(p), cbytes(p.encode("utf-8")),
+            cbytes(u.encode("utf-8")), cbytes(back.encode("utf-8", "surrogatepass"))))
     bad = coq.bools(exprs, shard=300)
     ctx.cov["traces_validated_against_impl"] += len(paths)
     for i, (p, u) in enumerate(zip(paths, uris)):
@@ -378,9 +381,9 @@ def check_uris(ctx, n):
             ctx.report("C16:uri-roundtrip", "file URI does not round-trip to the path",
                        {"kind": "counterexample", "input": {"path": p}, "implementation": {"uri": u, "back": back}, "oracle": p})
         elif i in bad:
-            ctx.report("C16:uri-model-mismatch", "path_to_uri differs from C16.Model.path_to_uri",
+            ctx.report("C16:uri-model-mismatch", "path_to_uri/path_from_uri differ from C16.Model.path_to_uri/path_from_uri",
                        {"kind": "broken-correspondence", "input": {"path": p}, "implementation": u,
-                        "correspondence": "FV.C16.Model.path_to_uri vs fortls.jsonrpc.path_to_uri"}, found_input=False)
+                        "correspondence": "FV.C16.Model.path_to_uri, path_from_uri vs fortls.jsonrpc.path_to_uri, path_from_uri"}, found_input=False)
 
 
 def search_failing(ctx):
